@@ -1299,6 +1299,38 @@ def _run(ctx, qe, cfp, mt_mod, NormalFormGame, Player):
     except NarrowTableaux as e:
         ctx.spec_fail("ig_narrow_tableaux_8bit_max_iter", str(e), rp8)
 
+    # polym_lcp_solver's handling of starting_player_actions: None (default), valid lists, and a malformed stream
+    # (wrong length, an action equal to / above the player's number of actions) -> AssertionError
+    for _ in range(ctx.n(40, 200)):
+        N = ctx.rng.choice([2, 3, 4])
+        nums = [ctx.rng.randint(1, 4) for _ in range(N)]
+        mats = {(i, j): [[float(ctx.rng.randint(-3, 3)) for _ in range(nums[j])] for _ in range(nums[i])]
+                for i in range(N) for j in range(N) if i != j}
+        pg = PolymatrixGame(mats)
+        t = ctx.rng.randrange(6)
+        if t == 0:
+            st = None
+        elif t == 1:
+            st = [ctx.rng.randrange(n) for n in nums][:-1]
+        elif t == 2:
+            st = [ctx.rng.randrange(n) for n in nums] + [0]
+        elif t == 3:
+            st = [ctx.rng.randrange(n) for n in nums]
+            q = ctx.rng.randrange(N)
+            st[q] = nums[q] + ctx.rng.choice([0, 0, 1, 5])
+        else:
+            st = [ctx.rng.randrange(n) for n in nums]
+        try:
+            _, res = polym_lcp_solver(pg, starting_player_actions=st, max_iter=0, full_output=True)
+            eff = res.init
+            eff = [eff[k] for k in range(N)] if isinstance(eff, dict) else list(eff)
+            out = "ok:" + ints(eff)
+        except AssertionError:
+            out = "ERR:AssertionError"
+        ctx.count("polymstart:%s" % ("None" if st is None else out.split(":")[0] + (":AssertionError" if out.startswith("ERR") else "")))
+        cases.append(Case("C15 polymstart nums=%s start=%s" % (ints(nums), "none" if st is None else ints(st)), out,
+                          nontrivial=st is not None, tag="polymstart"))
+
     # init forms outside the documented domain ("an integer or an array of floats"): 0-d arrays, bools, float scalars.
     # What the code does with them is part of the model (`flattenInitForms`) and compared exactly; no verdict of the
     # property is attached (the start is not a profile of probability vectors).
